@@ -97,7 +97,7 @@ func (C16) Generate(r *rand.Rand, tier string, idx int) *drv.Scenario {
 		}
 	}
 	steps = append(steps, drv.Op{Op: "njpair"}, drv.Op{Op: "njrestart", Mode: "kill"})
-	return &drv.Scenario{Family: "neuronjson", Knobs: baseKnobs(r), Steps: steps, Fixed: 1}
+	return lockSwarm(&drv.Scenario{Family: "neuronjson", Knobs: baseKnobs(r), Steps: steps, Fixed: 1}, idx)
 }
 
 type njExec struct {
